@@ -116,8 +116,12 @@ def case(spec):
         out["prop_failures"].append(dict(test=test, what=what, case=tag, **kw))
 
     def mcheck(i):
+        """what the model of check() says about the state after step i; None once the model has answered
+        Unspec somewhere before (from there on its states are not compared with the implementation)"""
         m = getattr(env, "last_model", None)
-        return m[i].get("check") if m and i < len(m) else None
+        if not m or i >= len(m) or any(m[j]["cls"] == "Unspec" for j in range(i + 1)):
+            return None
+        return m[i].get("check")
 
     def hook(i, op, cls, x_before, x, snap, obs_hash):
         where = "after #%d %s" % (i, op[0])
